@@ -295,6 +295,72 @@ pub mod one {
     }
 }
 
+/// C11 from INSIDE `clone()`: a component whose `Clone::clone` re-enters its own world (an `Rc`
+/// parked in a thread-local; `&World` is all it needs) while `World::clone` / `Archetype::clone`
+/// is reading the columns.  Exclusive runtime borrows of columns of the archetype being cloned
+/// must be refused (they would alias the reader), shared ones and accesses to another archetype
+/// must be granted.
+pub mod reent {
+    use super::{P1, P2};
+    use crate::guard;
+    use gecs::prelude::*;
+    use std::cell::RefCell;
+    use std::rc::Rc;
+
+    pub struct Re(pub u64);
+
+    ecs_world! {
+        ecs_name!(Wr);
+        ecs_archetype!(Rr, Re, P1);
+        ecs_archetype!(Rq, P2);
+    }
+
+    thread_local! {
+        static WORLD: RefCell<Option<Rc<Wr>>> = RefCell::new(None);
+        static LOG: RefCell<Vec<(&'static str, bool, bool)>> = RefCell::new(Vec::new());
+    }
+
+    impl Clone for Re {
+        fn clone(&self) -> Self {
+            let w = WORLD.with(|w| w.borrow().clone());
+            if let Some(rc) = w {
+                let w: &Wr = &rc;
+                let rec = |name: &'static str, must_refuse: bool, granted: bool| LOG.with(|l| l.borrow_mut().push((name, must_refuse, granted)));
+                rec("slice_mut<P1>", true, guard(|| { let _g = w.rr.borrow_slice_mut::<P1>(); }).is_ok());
+                rec("slice_mut<Re>", true, guard(|| { let _g = w.rr.borrow_slice_mut::<Re>(); }).is_ok());
+                rec("component_mut<P1>", true, guard(|| { let e = w.rr.entities()[0]; let b = w.rr.borrow(e).unwrap(); let _g = b.component_mut::<P1>(); }).is_ok());
+                rec("find_borrow(&mut P1)", true, guard(|| { let e = w.rr.entities()[0]; ecs_find_borrow!(w, e, |p: &mut P1| { let _ = p; }).is_some() }).unwrap_or(false));
+                rec("iter_borrow(&mut P1)", true, guard(|| { ecs_iter_borrow!(w, |p: &mut P1, _r: &Re| { let _ = p; }); }).is_ok());
+                rec("slice<P1>", false, guard(|| { let _g = w.rr.borrow_slice::<P1>(); }).is_ok());
+                rec("find_borrow(&P1)", false, guard(|| { let e = w.rr.entities()[0]; ecs_find_borrow!(w, e, |p: &P1| p.0).is_some() }).unwrap_or(false));
+                rec("other.slice_mut<P2>", false, guard(|| { let _g = w.rq.borrow_slice_mut::<P2>(); }).is_ok());
+            }
+            Re(self.0)
+        }
+    }
+
+    pub fn run() {
+        let mut w = Wr::new();
+        w.create::<Rr>((Re(1), P1(10)));
+        w.create::<Rr>((Re(2), P1(20)));
+        w.create::<Rq>((P2(3),));
+        let rc = Rc::new(w);
+        WORLD.with(|x| *x.borrow_mut() = Some(rc.clone()));
+        let world_clone_ok = guard(|| { let c: Wr = (*rc).clone(); c.rr.len() }).ok();
+        let arch_clone_ok = guard(|| { let c: Rr = rc.rr.clone(); c.len() }).ok();
+        WORLD.with(|x| *x.borrow_mut() = None);
+        let log = LOG.with(|l| std::mem::take(&mut *l.borrow_mut()));
+        let wrongly_granted: Vec<&str> = log.iter().filter(|(_, must, g)| *must && *g).map(|(n, _, _)| *n).collect();
+        let wrongly_refused: Vec<&str> = log.iter().filter(|(_, must, g)| !*must && !*g).map(|(n, _, _)| *n).collect();
+        let mut wg = wrongly_granted.clone();
+        wg.dedup();
+        let mut wr = wrongly_refused.clone();
+        wr.dedup();
+        println!("R1 attempts={} aliasing_granted={} [{}] refused_wrongly={} [{}] clones_ok={}/{}", log.len(), wrongly_granted.len(), wg.join(","), wrongly_refused.len(), wr.join(","),
+            world_clone_ok.map(|n| n.to_string()).unwrap_or("panic".into()), arch_clone_ok.map(|n| n.to_string()).unwrap_or("panic".into()));
+    }
+}
+
 /// C07: the step values an `ecs_iter_destroy!` closure may return and their conversions.
 fn step_values() {
     fn name(x: &EcsStepDestroy) -> &'static str {
@@ -330,6 +396,7 @@ pub fn run() {
     leaked_guard_iter_destroy();
     leaked_guard_growth();
     one::run();
+    reent::run();
     step_values();
     scenario!("S1", S1, s_1, |t: u64| (Ca::make(t, 1), P1(t)), 1);
     scenario!("S2", S2, s_2, |t: u64| (P1(t), Ca::make(t, 1)), 1);
